@@ -9,7 +9,7 @@ MODEL_IS_SPEC = False
 RULE = ("(a) small JSON values (<= 7 nodes, object/array mixes, scalars and empty containers): EVERY outcome of the random choices of the descendant traversal is enumerated on the real code "
         "(random.randrange / random.shuffle replaced by an enumerating chooser); each outcome is compared, script by script, with the choice-script model, checked against the Coq "
         "predicate valid_order, every outcome must be in the Coq enumeration of all valid orders, and the set of container orders produced must equal the set of container orders of that enumeration (exhaustiveness: scalars are visited as soon as their turn comes, which cannot change any result); (b) random queries x values in nondeterministic mode with "
-        "random seeds: the result must be a permutation of the deterministic RFC nodelist; non-trivial = value has an object with >= 2 members or nested containers; distinct = distinct (value, script)")
+        "random seeds: the result must be a permutation of the deterministic RFC nodelist; (c) descendant queries with name / index / slice selectors on small values: every outcome of env.find is enumerated and the set of results must equal the set obtained by applying the selectors along every valid order; non-trivial = value has an object with >= 2 members or nested containers; distinct = distinct (value, script)")
 TRUSTED_BASE = [
     "Coq 8.16.1 kernel; theorems closed under the global context",
     "Spec/Nondet.v: valid_order / all_orders as a reading of RFC 9535 2.5.2.2 (parent before child, array elements in order, object members free)",
@@ -109,6 +109,49 @@ def cases(ctx, budget):
             return None
         yield Case({"value": v, "outcomes": len(outcomes), "scripts": cnt, "enumeration_complete": full}, None, [len(outcomes)], [117] + wire.enc_json(v), None,
                    count_nodes(v) > 2, "outcome-set", True, chk)
+    # (c) whole queries with a descendant segment whose selectors make no random choice of their own (names, indices, slices): every outcome of
+    #     env.find in nondeterministic mode is enumerated; the set of results must be exactly { selectors applied along o : o a valid order }
+    denv0 = harness.make_env()
+    qtexts = ["$..[0]", "$..a", "$..['a', 0]", "$..[1:]", "$..['b']", "$..[-1]"]
+    extra = [{"a": [1], "b": [2]}, {"p": {"a": 1}, "q": {"a": 2}}, [[[1]], [2]], {"a": {"b": [5]}, "b": [6, 7]}, [{"a": [0]}, {"a": [1]}]]
+    for v in extra + list(small_values(rng, (12 if ctx.quick else 300) * budget)):
+        if count_nodes(v) > 8: continue
+        for qt in qtexts:
+            sels = denv0.compile(qt).segments[0].selectors
+            results = set(); cnt = 0; full = True
+
+            def runq(s, v=v, qt=qt):
+                try: return [0, tuple(nd.location for nd in env.find(qt, v))]
+                except jp.JSONPathRecursionError: return [1, 6]
+            for script, out in chooser.enumerate_outcomes(runq, cap):
+                cnt += 1
+                if out[0] == 0: results.add(out[1])
+            if cnt >= cap: full = False
+
+            def chkq(impl_out, spec, results=results, full=full, v=v, sels=sels):
+                pos = 1; expected = set()
+                for _ in range(spec[0]):
+                    m = spec[pos]; pos += 1
+                    res = []
+                    for _ in range(m):
+                        k = spec[pos]; pos += 1
+                        loc = []
+                        for _ in range(k):
+                            if spec[pos] == 0:
+                                nn = spec[pos + 1]; loc.append("".join(chr(c) for c in spec[pos + 2:pos + 2 + nn])); pos += 2 + nn
+                            else:
+                                loc.append(spec[pos + 1]); pos += 2
+                        x = v
+                        for kk in loc: x = x[kk]
+                        node = jp.JSONPathNode(value=x, location=tuple(loc), root=v)
+                        for sel in sels:
+                            res.extend(nd.location for nd in sel.resolve(node))
+                    expected.add(tuple(res))
+                if not results <= expected: return "a result of the nondeterministic query is not one RFC 9535 allows: %r" % (sorted(results - expected, key=repr)[:1],)
+                if full and results != expected: return "a result RFC 9535 allows is never produced (%d of %d)" % (len(results), len(expected))
+                return None
+            yield Case({"value": v, "query": qt, "results": len(results), "scripts": cnt, "enumeration_complete": full}, None, [len(results)], [117] + wire.enc_json(v), None,
+                       len(results) > 1, "query-outcome-set", True, chkq)
     # (b) whole queries: nondeterministic result is a permutation of the deterministic one
     import random
     n = (1500 if ctx.quick else 60000) * budget
